@@ -651,6 +651,24 @@ func main() {
 			})
 		}
 	}
+	// (7d) several `choice` inputs whose default is not among the options (each message lists its
+	// own options); an index that is not a literal on an object whose members have different types
+	for k := 0; k < 4; k++ {
+		var b strings.Builder
+		b.WriteString("on:\n  workflow_dispatch:\n    inputs:\n")
+		for _, i := range r.Perm(3 + k) {
+			fmt.Fprintf(&b, "      in%d:\n        type: choice\n        default: nope%d\n        options: [a%d, b%d, c%d]\n", i, i, i, i, i)
+		}
+		b.WriteString("jobs:\n  a:\n    runs-on: ubuntu-latest\n    steps:\n      - run: echo\n")
+		src := b.String()
+		sum.Dist["site_choice_defaults"]++
+		check("site:choice-defaults:"+src, "several choice inputs with a default outside their options", src, func(rep int) result { return lintContent("gen.yaml", []byte(src), rep) })
+	}
+	for k, rows := range []string{"        n: [1]\n        b: [true]\n        s: [x]\n", "        s: [x]\n        o: [{a: 1}]\n        n: [1]\n        b: [true]\n", "        l: [[1]]\n        n: [2]\n        s: [y]\n        z: [null]\n"} {
+		src := "on: push\njobs:\n  a:\n    runs-on: ubuntu-latest\n    strategy:\n      matrix:\n" + rows + "    steps:\n      - run: echo ${{ matrix[github.job].foo }} ${{ matrix[github.job] == 1 }}\n      - run: echo ${{ matrix[format('{0}', github.job)][0] }} ${{ fromJSON('{\"a\":1,\"b\":true,\"c\":\"s\"}')[github.job].x }}\n"
+		sum.Dist["site_dynamic_index"]++
+		check(fmt.Sprintf("site:dynamic-index:%d", k), "an object whose members have different types, indexed by a value that is not a literal", src, func(rep int) result { return lintContent("gen.yaml", []byte(src), rep) })
+	}
 	// (7) sites without a model: needs cycles, runner label conflicts (repetition only)
 	for k := 0; k < *nsite; k++ {
 		src := wfNeedsCycles(r)
